@@ -80,6 +80,39 @@ let run_stm (v : stm_variant) (toks : string list) : string =
   | None -> "BADCASE"
   | Some ops -> String.concat " ; " (List.map show_stm_line (stm_trace v stm_init ops))
 
+(* ---------------- Buffer ---------------- *)
+let buf_ops (toks : string list) : buf_op list =
+  List.map (function
+    | TWrite l -> BWrite l
+    | TRead n -> BRead (nat_of_int n)
+    | TNext n -> BNext (z_of_string n)
+    | TSeek (w, o) -> BSeek (z_of_string o, z_of_string w)
+    | TTidy -> BTidy
+    | TReset -> BReset
+    | TGrow n -> BGrow (z_of_string n)) (parse_toks toks)
+
+let show_buf_ret (r : buf_ret) : string =
+  match r with
+  | BRWrote n -> "W" ^ string_of_z n
+  | BRRead (d, e) -> Printf.sprintf "R%d:%s%s" (List.length d) (hex_of_zlist d) (if e then ":EOF" else "")
+  | BRNext d -> "N" ^ hex_of_zlist d
+  | BRSeek p -> opt_pos p
+  | BRUnit -> "U"
+
+let show_buf_line (l : buf_line) : string =
+  match l with
+  | BLPanic -> "PANIC"
+  | BLObs (r, b, len, cap, pos) ->
+    Printf.sprintf "%s b=%s l=%s c=%s p=%s" (show_buf_ret r)
+      (match b with Ok d -> hex_of_zlist d | _ -> "PANIC") (string_of_z len) (string_of_z cap)
+      (match pos with Some p -> string_of_z p | None -> "E")
+
+let run_buf (toks : string list) : string =
+  match (try Some (buf_ops toks) with Bad_op _ | Failure _ | Invalid_argument _ -> None) with
+  | None -> "BADCASE"
+  | Some ops -> String.concat " ; " (List.map show_buf_line (buf_trace buf_init ops))
+
 let () =
+  Registry.register "c13B" run_buf;
   Registry.register "c13S" (run_stm StmFixed);
   Registry.register "c13So" (run_stm StmOrig)
